@@ -66,6 +66,46 @@ B {0},3,1 three rows
 B {3},3 one row
 > {0},1 ; footer
 i {6}''', None),
+    ('sub and fix directives with comments', 7, '''@ {0} isub=LD A,2 ; Load 2 instead
+@ {2} ssub=LD HL,0
+@ {2} keep
+@ {5} bfix=LD (HL),1 ; fixed
+@ {5} nowarn
+c {0} Routine
+C {0},2 first
+C {2},3 second
+C {5},2 third
+i {7}''', 'ld'),
+    ('registers without descriptions', 7, '''c {0} Routine
+R {0} A
+R {0} BC Some description
+R {0} HL
+R {0} DE Another one
+C {0},7
+i {7}''', 'ld'),
+    ('mixed-type group then statements', 7, '''b {0} Data
+M {0},3 group over two types
+B {0},1
+W {1},2
+B {3},2,1 two statements after the group
+M {5},2 second group
+B {5},1
+T {6},1
+i {7}''', None),
+    ('blank comment on a data statement', 2, '''b {0}
+B {0},1,1
+.
+B {1},1 x
+i {2}''', None),
+    ('blank mixed-type group', 4, '''b {0}
+M {0},3 .
+B {0},1
+W {1},2
+B {3},1
+i {4}''', None),
+    ('unbalanced braces across lines', 7, '''c {0} Routine
+C {0},7 A closing brace } right here in the first part of this comment and, much later on, after enough words to wrap the line, an opening { brace
+i {7}''', 'ld'),
     ('multi-line comments', 8, '''t {0} Message
 T {0},4,2 first
 : second line
@@ -73,6 +113,9 @@ T {4},4,c2:2
 L {4},4,1
 i {8}''', None),
 ]
+
+
+NEEDS_K = ('multi-line comments', 'blank and dotted comments')
 
 
 def init_worker():
@@ -111,7 +154,9 @@ def corpus(tier):
             e = (e[0], e[1], e[2], 'jumpsc', e[4])
         out.append(e + (0,))
     for name, n, text, key in ANNOTATED:
-        out.append((name, n, text, key, c01.A, 1))       # explicit line breaks in comments need skool2ctl -k
+        out.append((name, n, text, key, c01.A, 1))       # with skool2ctl -k (explicit line breaks in comments need it)
+        if name not in NEEDS_K:
+            out.append((name + ' (no -k)', n, text, key, c01.A, 0))
     return out
 
 
@@ -198,7 +243,9 @@ def check_trip(item):
         if r == 'unknown':
             res['inconclusive'].append(name); return
         if r == 'sat':
-            res['violations'].append(dict(key='%s:%s' % (name, which[0][:60]), text='%s with memory %r: %s' % (name, mem(mod), '; '.join(which[:3])), case=case(mod)))
+            # one key per control-file shape and kind of failure, whatever the settings (known findings are listed by shape)
+            kind = 'fixed point' if which[0].startswith('control file of the second trip') else 'skool file differs'
+            res['violations'].append(dict(key='round trip [%s]:%s' % (name0.replace(' (no -k)', ''), kind), text='%s with memory %r: %s' % (name, mem(mod), '; '.join(which[:3])), case=case(mod)))
             return
         res['discharged'] += 1
         res['nontrivial'] += 1
